@@ -347,6 +347,10 @@ class Message:
             raise error.UnparsableMessage("Fatal Error: Protocol Version must be 1")
         mtype = (vttkl & 0x30) >> 4
         token_length = vttkl & 0x0F
+        if token_length > 8:
+            # RFC 7252 Section 3: "Lengths 9-15 are reserved, MUST NOT be
+            # sent, and MUST be processed as a message format error."
+            raise error.UnparsableMessage("Overly long token")
         msg = Message(code=code)
         msg.mid = mid
         msg.mtype = Type(mtype)
